@@ -361,6 +361,31 @@ pub fn gen_driver(prop: &str, rng: &mut Rng, sh: &mut Shards, out: &str, thoroug
                 }
                 progs.push((Program { data: Vec::new(), items, interp: false, stdin, note: "services".into() }, Layout::plain()));
             }
+            // the small corner of every console-output service: counts and columns 0, 1, 2 in every combination
+            for cx in [0u16, 1, 2] {
+                for dl in [0u16, 1, 2, 9] {
+                    let mut items = vec![Item::Label("start".into())];
+                    items.extend(setseg("es", 0x2000));
+                    items.push(mov16("bp", 0x10));
+                    for (k, ch) in [b'o', b'k'].iter().enumerate() {
+                        items.push(Item::Ins(Ins::Mov { w: 8, dst: Opnd::Mem { seg: "es", base: "bp", index: "", disp: k as i32, has_disp: true }, src: Opnd::Imm(*ch as i32) }));
+                    }
+                    items.push(mov8("dl", b'['));
+                    items.push(mov16("ax", 0x0200));
+                    items.push(Item::Ins(Ins::Int { n: 0x21 }));
+                    items.push(mov16("cx", cx));
+                    items.push(mov16("dx", 0x7700 | dl));
+                    items.push(mov16("ax", 0x1300 | b'#' as u16));
+                    items.push(Item::Ins(Ins::Int { n: 0x10 }));
+                    items.push(mov16("cx", cx));
+                    items.push(mov16("ax", 0x0A00 | b'*' as u16));
+                    items.push(Item::Ins(Ins::Int { n: 0x10 }));
+                    items.push(mov8("dl", b']'));
+                    items.push(mov16("ax", 0x0200));
+                    items.push(Item::Ins(Ins::Int { n: 0x21 }));
+                    progs.push((Program { data: Vec::new(), items, interp: false, stdin: Vec::new(), note: format!("out-corner-{}-{}", cx, dl) }, Layout::plain()));
+                }
+            }
             // every AH value for both interrupts (unsupported ones must be reported and stop the program)
             for n in [0x10u32, 0x21] {
                 for ah in 0..256u32 {
@@ -1035,6 +1060,33 @@ pub fn gen_c15(rng: &mut Rng, sh: &mut Shards, out: &str, thorough: bool) {
             let stdin = if rng.chance(1, 3) { mutate_bytes(b"n\nprint reg\nn\nq\n", rng) } else { b"n\nn\nn\nn\nn\nn\nn\nn\n".to_vec() };
             cases.push((m, stdin, rng.chance(1, 5), "mutant".into()));
         }
+    }
+    // strings given to the print reader: commands typed at the prompt of a stepping run (byte mutations of valid
+    // commands, and every number position filled with boundary and oversized constants in the three radices)
+    let stepping = b"start:\nmov ax, 1\nint 3\nmov bx, 2\nprint reg\nmov cx, 3\n".to_vec();
+    let cmds: [&str; 9] = ["print reg", "print flags", "print mem 0 -> 16", "print mem 0x10 : 4", "print mem : 5", "print mem 0b101 -> 0b111", "PRINT MEM 0XFFFF0 -> 0XFFFFF", "n", "next"];
+    let consts: Vec<String> = vec![
+        "0".into(), "1048574".into(), "1048575".into(), "1048576".into(), "1048577".into(), "0xFFFFF".into(), "0x100000".into(), "0x100001".into(), "0xFFFFFF".into(),
+        "0x1000000".into(), "0xFFFFFFFF".into(), "0x100000000".into(), "4294967295".into(), "4294967296".into(), "18446744073709551615".into(), "18446744073709551616".into(),
+        "99999999999999999999999".into(), "0xFFFFFFFFFFFFFFFFF".into(), format!("0b1{}", "0".repeat(20)), format!("0b{}", "1".repeat(20)), format!("0b{}", "1".repeat(70)), "-1".into(), "00000000000000000000001".into(),
+        "0X100000".into(), "0B100000000000000000000".into(),
+    ];
+    for i in 0..(if thorough { 300 } else { 50 }) {
+        let mut sin: Vec<u8> = Vec::new();
+        for _ in 0..40 {
+            let c = *rng.pick(&cmds);
+            let line: Vec<u8> = match rng.below(3) {
+                0 => mutate_bytes(c.as_bytes(), rng),
+                _ => {
+                    // replace every number of the command by a drawn constant
+                    let toks: Vec<String> = c.split(' ').map(|t| if t.chars().next().map_or(false, |ch| ch.is_ascii_digit()) { rng.pick(&consts).clone() } else { t.to_string() }).collect();
+                    toks.join(" ").into_bytes()
+                }
+            };
+            sin.extend(line);
+            sin.push(b'\n');
+        }
+        cases.push((stepping.clone(), sin, i % 2 == 0, "prompt-commands".into()));
     }
     let threads = 16;
     let results: Vec<Vec<serde_json::Value>> = {
